@@ -96,6 +96,7 @@ class Prop(G.InputPropBase):
                 tag = "random:mixed"
             runs = [G.chunkings(rng, data, "random"), G.chunkings(rng, data, "random"), G.chunkings(rng, data, "bytes"),
                     "!" + G.chunkings(rng, data, "random"),     # the channel already holds the deliveries: reads complete synchronously
+                    "!!" + G.chunkings(rng, data, "random"),    # … and the client re-arms before it looks at its tokens
                     G.chunkings(rng, data, "whole")]
             if 0 < len(data) <= 80:
                 runs.insert(3, "!" + G.chunkings(rng, data, "bytes"))
